@@ -103,8 +103,37 @@ def sym_from_eigs(rng, eigs):
     return [m[0][0], m[1][1], m[2][2], m[1][2], m[0][2], m[0][1]]
 
 
-def make_u(rng, kind):
+def cart_to_cif(cell, uc):
+    """U_cif = A⁻¹ U_cart A⁻ᵀ with A = M·N (the generator's own arithmetic; only used to aim at a class of tensors)"""
+    a, b, c, al, be, ga = cell
+    ca, cb, cg = (math.cos(math.radians(x)) for x in (al, be, ga))
+    sa, sb, sg = (math.sin(math.radians(x)) for x in (al, be, ga))
+    v = a * b * c * math.sqrt(1 + 2 * ca * cb * cg - ca * ca - cb * cb - cg * cg)
+    m = [[a, b * cg, c * cb], [0.0, b * sg, c * (ca - cb * cg) / sg], [0.0, 0.0, v / (a * b * sg)]]
+    n = [b * c * sa / v, a * c * sb / v, a * b * sg / v]
+    A = [[m[i][j] * n[j] for j in range(3)] for i in range(3)]          # upper triangular
+    # inverse of an upper triangular matrix
+    inv = [[0.0] * 3 for _ in range(3)]
+    for i in range(3):
+        inv[i][i] = 1 / A[i][i]
+    inv[0][1] = -A[0][1] * inv[1][1] / A[0][0]
+    inv[1][2] = -A[1][2] * inv[2][2] / A[1][1]
+    inv[0][2] = -(A[0][1] * inv[1][2] + A[0][2] * inv[2][2]) / A[0][0]
+    U = [[uc[0], uc[5], uc[4]], [uc[5], uc[1], uc[3]], [uc[4], uc[3], uc[2]]]
+    t = [[sum(inv[i][k] * U[k][j] for k in range(3)) for j in range(3)] for i in range(3)]
+    r = [[sum(t[i][k] * inv[j][k] for k in range(3)) for j in range(3)] for i in range(3)]
+    return [r[0][0], r[1][1], r[2][2], r[1][2], r[0][2], r[0][1]]
+
+
+def make_u(rng, kind, cell=None):
     s = rng.uniform(0.01, 0.12)
+    if kind == 'eqmod':
+        # indefinite with two Cartesian eigenvalues of (nearly) equal magnitude and opposite sign: an unshifted
+        # eigenvalue iteration does not separate them
+        eps = rng.choice([0.0, 1e-4, 1e-3]) if rng.random() < 0.2 else rng.uniform(0.003, 0.04)
+        e = [s, -s * (1 - eps), s * rng.uniform(0.1, 0.9)]       # the positive one slightly larger
+        rng.shuffle(e)
+        return [round(v, 8) for v in cart_to_cif(cell, sym_from_eigs(rng, e))]
     if kind == 'pd':
         e = [s * rng.uniform(0.2, 1.0), s * rng.uniform(0.2, 1.0), s]
         nd = rng.choice([5, 5, 5, 4, 6])
@@ -117,7 +146,7 @@ def make_u(rng, kind):
         e = [-s, -s * rng.uniform(0.2, 1.0), -s * rng.uniform(0.2, 1.0)]
         nd = 5
     elif kind == 'near':        # nearly singular, either side of the boundary
-        e = [s, s * rng.uniform(0.2, 1.0), s * rng.choice([1, -1]) * 10 ** rng.uniform(-6.5, -3)]
+        e = [s, s * rng.uniform(0.2, 1.0), s * rng.choice([1, -1]) * 10 ** rng.uniform(-8.5, -3)]
         nd = 8
     elif kind == 'singular':    # on the boundary: rank deficient by construction (excluded from the npd comparison)
         p, q = rng.randint(1, 9), rng.randint(1, 9)
@@ -139,21 +168,21 @@ def make_u(rng, kind):
     return [round(v, nd) for v in sym_from_eigs(rng, e)]
 
 
-U_KINDS = ['pd', 'pd', 'pd', 'indef', 'indef', 'near', 'negdef', 'diag', 'singular', 'cancel']
+U_KINDS = ['pd', 'pd', 'pd', 'indef', 'indef', 'near', 'negdef', 'diag', 'singular', 'cancel', 'eqmod']
 
 
-def make_case(rng, cls=None):
+def make_case(rng, cls=None, ukinds=None):
     cls = cls or rng.choice(CLASSES)
     cell = make_cell(rng, cls)
     atoms = []
     for i in range(rng.randint(3, 6)):
         xyz = [rcoord(rng), rcoord(rng), rcoord(rng)]
         r = rng.random()
-        if r < 0.2:
+        if r < 0.2 and not ukinds:
             atoms.append(dict(xyz=xyz, u=[round(rng.uniform(0.01, 0.2), 5)], kind='iso'))
         else:
-            kind = rng.choice(U_KINDS)
-            atoms.append(dict(xyz=xyz, u=make_u(rng, kind), kind=kind))
+            kind = rng.choice(ukinds or U_KINDS)
+            atoms.append(dict(xyz=xyz, u=make_u(rng, kind, cell), kind=kind))
     n = len(atoms)
     pairs = [[i, (i + 1) % n] for i in range(n)]
     return dict(cls=cls, cell=cell, atoms=atoms, pairs=pairs)
@@ -228,6 +257,19 @@ def observe_impl(case):
 # ------------------------------------------------------------------------------------------------
 # comparison
 
+RESID = {}
+
+
+def resid(stream, a, b):
+    """largest relative difference implementation vs metric-tensor reference seen per stream (evidence only)"""
+    try:
+        d = abs(float(a) - float(b)) / max(abs(float(a)), abs(float(b)), 1e-300)
+    except (TypeError, ValueError):
+        return
+    if d > RESID.get(stream, 0.0):
+        RESID[stream] = d
+
+
 def close(a, b, tol=TOL, rel=REL):
     if isinstance(a, str) or isinstance(b, str) or a is None or b is None:
         return False
@@ -279,6 +321,7 @@ def evaluate(ctx, cases, stream=None):
                   sample=dict(stream='cell', cell=case['cell'], impl_V=obs['V'], spec_V=r['spec_V']))
         for name, got in (('volume', obs['V']), ('det', obs['det'])):
             pl = dict(case=sub([]), stream='cell', expected=r['spec_V'], actual=got, model=r['V'] if name == 'volume' else r['det'])
+            resid('cell', got, r['spec_V'])
             if not close(got, r['spec_V']):
                 ctx.fail(f'C12|cell|{name}|{obl}', f'{"CELL.volume" if name == "volume" else "det of the orthogonalisation matrix"} '
                          f'{got} is not the volume sqrt(det G) = {r["spec_V"]} of cell {case["cell"]}', pl)
@@ -302,6 +345,7 @@ def evaluate(ctx, cases, stream=None):
             got = o['cart']
             if isinstance(got, list):
                 ln = math.sqrt(sum(t * t for t in got))
+                resid('cart-length', ln, rp['spec_len'])
                 if not close(ln, rp['spec_len']):
                     ctx.fail(f'C12|cart|length|{obl}', f'|cart_coords({xyz})| = {ln}, metric tensor gives {rp["spec_len"]} in cell {case["cell"]}',
                              dict(case=sub([i]), stream='cart', expected=rp['spec_len'], actual=ln))
@@ -318,6 +362,7 @@ def evaluate(ctx, cases, stream=None):
             ctx.count(['dist', case['cell'], p1, p2], nontrivial=obl == 'oblique' and p1 != p2, tags=['dist', obl],
                       sample=dict(stream='dist', cell=case['cell'], p1=p1, p2=p2, impl=o['dist'], spec=rp['spec']) if obl == 'oblique' else None)
             pl = dict(case=sub([i, j], [[0, 1]]), stream='dist', expected=rp['spec'], actual=o['dist'], model=rp['dist'])
+            resid('dist', o['dist'], rp['spec'])
             if not close(o['dist'], rp['spec']):
                 ctx.fail(f'C12|dist|atomic_distance|{obl}', f'atomic_distance({p1}, {p2}) = {o["dist"]}, metric tensor gives {rp["spec"]} '
                          f'(cell {case["cell"]})', pl)
@@ -343,6 +388,7 @@ def evaluate(ctx, cases, stream=None):
                       sample=dict(stream='ueq', cell=case['cell'], u=u, impl=o['ueq'], spec=ru['spec_ueq']) if obl == 'oblique' and offd else None)
             pl = dict(case=sub([i]), stream='ueq', expected=ru['spec_ueq'], actual=o['ueq'], model=ru['ueq_aniso'],
                       model_before_repair=ru['ueq_old'])
+            resid('ueq', o['ueq'], ru['spec_ueq'])
             if not close(o['ueq'], ru['spec_ueq'], 1e-12, REL):
                 sig = f'C12|ueq|aniso|{"sum-of-last-four-zero" if cancel else obl}'
                 ctx.fail(sig, f'Ueq of U = {u} in cell {case["cell"]}: Atom.ueq = {o["ueq"]}, one third of the trace of the Cartesian '
@@ -355,7 +401,7 @@ def evaluate(ctx, cases, stream=None):
             ctx.count(['npd', case['cell'], u], nontrivial=robust, tags=['npd', 'U=' + kind,
                                                                         ('npd' if want else 'pd') if robust else 'boundary'],
                       sample=dict(stream='npd', cell=case['cell'], u=u, impl=o['npd'], spec_npd=want, minors=[float(m) for m in ru['minors']])
-                      if robust and kind in ('indef', 'near') else None)
+                      if robust and kind in ('indef', 'near', 'eqmod') else None)
             if not robust:
                 continue
             pl = dict(case=sub([i]), stream='npd', expected=want, actual=o['npd'], model=ru['npd'],
@@ -373,7 +419,8 @@ def evaluate(ctx, cases, stream=None):
 def run(ctx):
     ctx.rule = ('generated files: one CELL (triclinic, monoclinic in each setting, orthorhombic, tetragonal, hexagonal with gamma = 120, '
                 'rhombohedral, cubic; a, b, c in [2, 100]; volume radicand > 0.02), 3-6 atoms with coordinates in [-2, 2] and U tensors '
-                '(positive definite, indefinite, negative definite, nearly singular on either side, singular, diagonal, isotropic, six '
+                '(positive definite, indefinite incl. Cartesian eigenvalues of equal magnitude and opposite sign, negative definite, nearly '
+                'singular on either side, singular, diagonal, isotropic, six '
                 'values whose last four sum to 0); distinct by (cell, coordinates or U); non-trivial = at least one angle differs from 90 '
                 '(and, for tensors, a non-zero off-diagonal U; for is_npd, the tensor is outside the 1e-9 boundary band)')
     ctx.assumptions = ['math.cos/sin/sqrt satisfy their algebraic relations up to rounding (hypotheses ValidCell, IsSqrt of the theorems)',
@@ -381,7 +428,7 @@ def run(ctx):
                        'exact Sylvester test (Rat)',
                        'tensors within a relative 1e-9 of singular are not compared for is_npd',
                        'exact arithmetic in the theorems; float residuals are bounded by the 1e-9 comparison of every case']
-    n = ctx.budget(250, 12000)
+    n = ctx.budget(600, 40000)
     cases = []
     for cls in CLASSES:          # every class in every run
         for _ in range(3):
@@ -400,5 +447,8 @@ def run(ctx):
         ctx.extra['grid'] = 'all angle triples from {60, 75, 90, 105, 120} with positive volume'
     for _ in range(n):
         cases.append(make_case(ctx.rng))
+    for _ in range(ctx.budget(500, 8000)):     # the class on which an unshifted eigenvalue iteration is slow
+        cases.append(make_case(ctx.rng, ukinds=['eqmod']))
     for i in range(0, len(cases), 400):
         evaluate(ctx, cases[i:i + 400])
+    ctx.extra['max_relative_difference_impl_vs_metric_reference'] = dict(RESID)
